@@ -4,9 +4,19 @@ import CelmaVerif.Lemmas.GroupsStepValue
   outside the key tables: the inversion word `!` and a comma inside a typed long key (`--a,bcd`).
   The cursor over such a command line only produces elements that satisfy `ElemPlain`.
 
-  Commas are excluded only where the cursor can take them into a long KEY: in a word that starts
-  with a dash, between a later dash and the next `=` (or the end of the word).  Value words
-  (`1,2,3`, `1,-2`), values attached to a key (`--list=1,2,3`, `-m1,2,3`) may contain commas.
+  Commas are excluded only where the cursor can take them into a long KEY.  In a word that starts
+  with a dash the cursor reads at most ONE long key: behind the first LATER dash (position ≥ 1), up
+  to the first `=` behind it or the end of the word (`determineNextArg`).  After that it never looks
+  for a key in the same word again: without `=` the word is finished, with `=` the whole rest of the
+  word is taken as a value by the next `++` (`mNextIsValue`).  So only that one stretch is
+  restricted.
+  * inside: value words (`1,2,3`, `1,-2`, `-1,2` behind `-m`), everything behind the `=` of a long
+    key (`--list=1,2,3`, `--max=-1,2`, `--name=a-b,c`, `--files=my-file,other`), values glued to
+    short keys as long as no dash precedes the comma (`-m1,2,3`);
+  * outside: `--x,lll`, `-a-x,lll`, and also `-m-1,2` — a dash behind short key characters followed
+    by a comma before the next `=`.  Whether `-1,2` there is the value of `-m` or a long key `1,2`
+    depends on whether `-m` takes a value, i.e. on the configuration, which this predicate on the
+    command line alone does not see; such words stay outside.
 -/
 namespace CelmaVerif.ProgArgs
 open CelmaVerif CelmaVerif.Keys
@@ -17,27 +27,36 @@ def keyPart (s : Word) : Word :=
   | none => s
   | some e => s.take e
 
-/-- after no dash of `s` does a comma occur before the next `=` / the end of `s` -/
+/-- behind the FIRST dash of `s` no comma occurs before the next `=` / the end of `s`; what follows
+    that `=` and what precedes the dash is not restricted (no dash in `s`: `true`) -/
 def dashKeysPlain : Word → Bool
   | [] => true
-  | c :: rest => (c != '-' || !(keyPart rest).contains ',') && dashKeysPlain rest
+  | c :: rest => if c == '-' then !(keyPart rest).contains ',' else dashKeysPlain rest
 
-/-- the word is not `!`, and if it starts with a dash no long key that could be read from it (the
-    text from behind a later dash up to the next `=`) contains a comma.  Words that do not start
-    with a dash are not restricted: `1,2,3`, `a,-b`. -/
+/-- the word is not `!`, and if it starts with a dash the one long key the cursor can read from it
+    (the text from behind the first later dash up to the next `=` / the end of the word) contains no
+    comma.  Words that do not start with a dash are not restricted (`1,2,3`, `a,-b`), nor is the text
+    behind the `=` of a long key (`--max=-1,2`, `--name=a-b,c`).  `-m-1,2` is NOT plain: the comma
+    follows a dash behind the short key character `m` with no `=` in between, and only the
+    configuration (does `-m` take a value?) decides whether `1,2` is read as a long key. -/
 def wordPlain (w : Word) : Bool :=
   w != ['!'] && (match w with
     | '-' :: rest => dashKeysPlain rest
     | _ => true)
 
-/-- no word is `!`; no comma inside a typed long key (`wordPlain`).  Commas in value words and in
-    values attached to a key are allowed. -/
+/-- no word is `!`; no comma inside the long key that can be typed in a word (`wordPlain`).  Commas
+    in value words, behind the `=` of a long key, and in values glued to short keys without a dash
+    before the comma are allowed; `-m-1,2`-style words are not (see `wordPlain`). -/
 def ArgvPlain (argv : List Word) : Prop := ∀ w ∈ argv, wordPlain w = true
 
 instance (argv : List Word) : Decidable (ArgvPlain argv) := by unfold ArgvPlain; infer_instance
 
-/-- a cursor position inside a word (`charPos ≠ 0`) is inside a word that starts with a dash -/
-def It.Dash (it : It) : Prop := it.charPos ≠ 0 → ∀ w, it.argv[it.argIndex]? = some w → w.head? = some '-'
+/-- a cursor position inside a word (`charPos ≠ 0`) is inside a word that starts with a dash, and
+    as long as no long key with `=` has been read from it (`nextIsValue = false`) there is no dash at
+    the positions `1 ≤ j < charPos` that the cursor has passed: a dash at `charPos` is the first later
+    dash of the word.  (`remAsValue` is not mentioned: `valueFor` may set it.) -/
+def It.Dash (it : It) : Prop := it.charPos ≠ 0 → ∀ w, it.argv[it.argIndex]? = some w →
+  w.head? = some '-' ∧ (it.nextIsValue = false → ∀ j, 1 ≤ j → j < it.charPos → w[j]? ≠ some '-')
 
 structure It.Plain (it : It) : Prop where
   argv : ArgvPlain it.argv
@@ -45,27 +64,36 @@ structure It.Plain (it : It) : Prop where
   ctrl : it.cur.ty = .control → (it.cur.ch == '(' || it.cur.ch == ')') = true
   dash : it.Dash
 
+/-- behind the first dash of `s` (at `j`) the key part has no comma -/
 theorem dashKeysPlain_at : ∀ (s : Word), dashKeysPlain s = true → ∀ j, s[j]? = some '-' →
-    ',' ∉ keyPart (s.drop (j + 1)) := by
+    (∀ i, i < j → s[i]? ≠ some '-') → ',' ∉ keyPart (s.drop (j + 1)) := by
   intro s
   induction s with
   | nil => intro _ j hj; simp at hj
   | cons c rest ih =>
-    intro h j hj
-    simp only [dashKeysPlain, Bool.and_eq_true, Bool.or_eq_true, bne_iff_ne, ne_eq, Bool.not_eq_true'] at h
+    intro h j hj hfirst
+    unfold dashKeysPlain at h
     cases j with
     | zero =>
       simp only [List.getElem?_cons_zero, Option.some.injEq] at hj
-      rcases h.1 with h1 | h1
-      · exact absurd hj h1
-      · intro hm
-        rw [List.drop_succ_cons, List.drop_zero] at hm
-        have := List.contains_iff_mem.mpr hm
-        rw [h1] at this; cases this
+      subst hj
+      rw [if_pos (by decide)] at h
+      intro hm
+      rw [List.drop_succ_cons, List.drop_zero] at hm
+      have := List.contains_iff_mem.mpr hm
+      rw [this] at h; cases h
     | succ j =>
+      have hc : ¬ (c == '-') = true := by
+        intro hc
+        have : c = '-' := by simpa using hc
+        exact hfirst 0 (Nat.succ_pos j) (by simp [this])
+      rw [if_neg hc] at h
       simp only [List.getElem?_cons_succ] at hj
       rw [List.drop_succ_cons]
-      exact ih h.2 j hj
+      refine ih h j hj ?_
+      intro i hi
+      have := hfirst (i + 1) (by omega)
+      simpa only [List.getElem?_cons_succ] using this
 
 theorem parseSingle_single (s : List Char) (k : Key) (h : parseSingle true s = .ok k) : k.Single := by
   unfold parseSingle at h
@@ -139,9 +167,30 @@ theorem getChar_isDash {argv : List Word} {i j : Nat} {w : Word} (hw : argv[i]? 
     · simp only [Res.pure_eq, Res.ok.injEq] at h; exact absurd h (by decide)
     · cases h
 
-/-- the long key read behind a dash at position `j ≥ 1` of a word of a plain command line has no comma -/
+/-- `mpArgV[i][j]` is not a dash: the word has no dash at `j` -/
+theorem getChar_notDash {argv : List Word} {i j : Nat} {w : Word} {c : Char} (hw : argv[i]? = some w)
+    (h : getChar argv i j = .ok c) (hc : c ≠ '-') : w[j]? ≠ some '-' := by
+  unfold getChar getWord at h
+  rw [hw] at h
+  simp only [Res.bind_ok] at h
+  split at h
+  · rename_i hlt
+    simp only [Res.pure_eq, Res.ok.injEq] at h
+    rw [List.getD_eq_getElem?_getD, List.getElem?_eq_getElem hlt] at h
+    rw [List.getElem?_eq_getElem hlt]
+    intro he
+    apply hc
+    rw [← h]
+    simpa using he
+  · rename_i hlt
+    rw [List.getElem?_eq_none (by omega)]
+    intro he; cases he
+
+/-- the long key read behind the FIRST later dash (position `j ≥ 1`, no dash at `1 ≤ i < j`) of a word
+    of a plain command line has no comma -/
 theorem keyPart_nocomma {argv : List Word} (ha : ArgvPlain argv) {i j : Nat} {w : Word}
-    (hw : argv[i]? = some w) (hd : w.head? = some '-') (hj : 1 ≤ j) (hc : w[j]? = some '-') :
+    (hw : argv[i]? = some w) (hd : w.head? = some '-') (hj : 1 ≤ j) (hc : w[j]? = some '-')
+    (hfirst : ∀ k, 1 ≤ k → k < j → w[k]? ≠ some '-') :
     ',' ∉ keyPart (w.drop (j + 1)) := by
   have hp := ha w (List.mem_of_getElem? hw)
   cases w with
@@ -153,7 +202,10 @@ theorem keyPart_nocomma {argv : List Word} (ha : ArgvPlain argv) {i j : Nat} {w 
     obtain ⟨j', rfl⟩ : ∃ j', j = j' + 1 := ⟨j - 1, by omega⟩
     simp only [List.getElem?_cons_succ] at hc
     rw [List.drop_succ_cons]
-    exact dashKeysPlain_at rest hp.2 j' hc
+    refine dashKeysPlain_at rest hp.2 j' hc ?_
+    intro k hk
+    have := hfirst (k + 1) (by omega) (by omega)
+    simpa only [List.getElem?_cons_succ] using this
 
 theorem getSuffix_eq {argv : List Word} {i j : Nat} {w s : Word} (hw : argv[i]? = some w)
     (h : getSuffix argv i j = .ok s) : s = w.drop j := by
@@ -189,16 +241,27 @@ theorem mkEnd_plain {argv : List Word} (ha : ArgvPlain argv) {e : It} (h : It.mk
     have : argv[argv.length + 1]? = none := List.getElem?_eq_none (by omega)
     rw [this] at hw; cases hw
 
+/-- the cursor enters a word behind its leading dash: `charPos = 1` -/
+theorem dash_one {it : It} (hcp : it.charPos = 1) {w : Word} (hw : it.argv[it.argIndex]? = some w)
+    (h0 : w[0]? = some '-') : it.Dash := by
+  intro _ w' hw'
+  rw [hw] at hw'; cases hw'
+  refine ⟨?_, fun _ j h1 h2 => ?_⟩
+  · cases w with
+    | nil => simp at h0
+    | cons c _ => simpa using h0
+  · rw [hcp] at h2; omega
+
 /-- every cursor step over a plain command line yields a plain element, whatever the flags -/
 theorem next_plain (fuel : Nat) :
     (∀ (it it' : It), ArgvPlain it.argv → it.Dash → it.next fuel = .ok it' → it'.Plain) ∧
-    (∀ (it it' : It), ArgvPlain it.argv → it.Dash → 1 ≤ it.charPos → it.determineNextArg fuel = .ok it' →
-      it'.Plain) := by
+    (∀ (it it' : It), ArgvPlain it.argv → it.Dash → it.nextIsValue = false → 1 ≤ it.charPos →
+      it.determineNextArg fuel = .ok it' → it'.Plain) := by
   induction fuel with
   | zero =>
     constructor
     · intro it it' _ _ h; unfold It.next at h; cases h
-    · intro it it' _ _ _ h; unfold It.determineNextArg at h; cases h
+    · intro it it' _ _ _ _ h; unfold It.determineNextArg at h; cases h
   | succ fuel ih =>
     constructor
     · intro it it' ha hd h
@@ -213,7 +276,12 @@ theorem next_plain (fuel : Nat) :
           obtain ⟨v, _, hx⟩ := hx
           cases hx
           exact plain_of_cur ha (by simp [Elem.setValue]) (by simp [Elem.setValue]) (dash_zero rfl)
-        · rw [bind_eq_ok_g] at hx
+        · rename_i hnv
+          have hnv' : it.nextIsValue = false := by
+            cases hv : it.nextIsValue with
+            | false => rfl
+            | true => rw [hv] at hnv; exact absurd (by simp) hnv
+          rw [bind_eq_ok_g] at hx
           obtain ⟨w, hw, hx⟩ := hx
           split at hx
           · rename_i hcp0
@@ -255,30 +323,27 @@ theorem next_plain (fuel : Nat) :
               · rename_i hval
                 split at hx
                 · cases hx
-                · refine ih.2 _ x ?_ ?_ ?_ hx
+                · refine ih.2 _ x ?_ ?_ ?_ ?_ hx
                   · exact ha
                   rotate_left
+                  · exact hnv'
                   · exact Nat.le_refl 1
-                  -- the word starts with a dash
-                  intro _ w' hw'
+                  -- the word starts with a dash; the cursor is placed directly behind it
                   have hww : it.argv[it.argIndex]? = some w := getWord_get hw
-                  rw [hww] at hw'; cases hw'
                   have hc0' : c0 = '-' := by
                     simp only [Bool.or_eq_true, bne_iff_ne, ne_eq, not_or, Bool.not_eq_true] at hval
                     exact Classical.not_not.mp hval.1
                   subst hc0'
-                  have := getChar_isDash hww hc0
-                  cases w with
-                  | nil => simp at this
-                  | cons c _ => simpa using this
+                  exact dash_one rfl hww (getChar_isDash hww hc0)
           · rename_i hcp0
             have : it.charPos ≠ 0 := by simpa using hcp0
-            refine ih.2 _ x ?_ ?_ ?_ hx
+            refine ih.2 _ x ?_ ?_ ?_ ?_ hx
             · exact ha
             · exact hd
+            · exact hnv'
             · show 1 ≤ it.charPos
               omega
-    · intro it it' ha hd hpos h
+    · intro it it' ha hd hnv hpos h
       unfold It.determineNextArg at h
       rw [bind_eq_ok_g] at h
       obtain ⟨c, hc, h⟩ := h
@@ -299,10 +364,11 @@ theorem next_plain (fuel : Nat) :
             obtain ⟨w, hw, _⟩ := hname
             exact ⟨w, getWord_get hw⟩
           obtain ⟨w, hw⟩ := hex
-          have hhead := hd (by omega) w hw
+          obtain ⟨hhead, hfirst⟩ := hd (by omega) w hw
+          -- the dash under the cursor is the first later dash of the word
           have hn : ',' ∉ keyPart name := by
             rw [getSuffix_eq hw hname]
-            exact keyPart_nocomma ha hw hhead hpos (getChar_isDash hw hc)
+            exact keyPart_nocomma ha hw hhead hpos (getChar_isDash hw hc) (hfirst hnv)
           unfold keyPart at hn
           split at h
           · rename_i hfe
@@ -314,15 +380,26 @@ theorem next_plain (fuel : Nat) :
             rw [hfe] at hn
             cases h
             refine plain_of_cur ha (by simpa [Elem.setArgString] using hn) (by simp [Elem.setArgString]) ?_
+            -- `nextIsValue = true`: the rest of the word is a value, no further key is read from it
             intro _ w' hw'
-            exact hd (by omega) w' hw'
-      · split at h
+            exact ⟨(hd (by omega) w' hw').1, fun hf => by cases hf⟩
+      · rename_i hcd
+        have hcd' : c ≠ '-' := by simpa using hcd
+        split at h
         · cases h
           exact plain_of_cur ha (by simp [Elem.setArgChar]) (by simp [Elem.setArgChar]) (dash_zero rfl)
         · cases h
           refine plain_of_cur ha (by simp [Elem.setArgChar]) (by simp [Elem.setArgChar]) ?_
+          -- a short key character: still no dash behind the leading one
           intro _ w' hw'
-          exact hd (by omega) w' hw'
+          obtain ⟨hhead, hfirst⟩ := hd (by omega) w' hw'
+          refine ⟨hhead, fun _ j h1 h2 => ?_⟩
+          have h2' : j < it.charPos + 1 := h2
+          by_cases hj : j < it.charPos
+          · exact hfirst hnv j h1 hj
+          · have hj' : j = it.charPos := by omega
+            subst hj'
+            exact getChar_notDash hw' hc hcd'
 
 theorem step_plain {it it' : It} (hp : it.Plain) (h : it.step = .ok it') : it'.Plain :=
   (next_plain 4).1 it it' hp.argv hp.dash h
@@ -341,18 +418,9 @@ theorem begin_plain {argv : List Word} (ha : ArgvPlain argv) {ai : It} (h : It.b
       subst hcd'
       split at h
       · cases h
-      · refine (next_plain 4).2 _ ai ?_ ?_ ?_ h
-        · exact ha
-        rotate_left
-        · exact Nat.le_refl 1
-        intro _ w' hw'
+      · refine (next_plain 4).2 _ ai ha ?_ rfl (Nat.le_refl 1) h
         have hww : argv[1]? = some w := getWord_get hw
-        have hw'' : argv[1]? = some w' := hw'
-        rw [hww] at hw''; cases hw''
-        have := getChar_isDash hww hc0
-        cases w with
-        | nil => simp at this
-        | cons c _ => simpa using this
+        exact dash_one rfl hww (getChar_isDash hww hc0)
     · cases h
       exact plain_of_cur ha (by simp [Elem.setValue]) (by simp [Elem.setValue]) (dash_zero rfl)
 
